@@ -15,7 +15,7 @@ func init() {
 	register("C05", "Decided: per-clause lockstep of size and emitted elements, lane order, decimal hand-off, RESB flow, non-emitting statements, every operand clause contributes or diagnoses, ALIGNB address basis.",
 		ruleP7, ruleP7e, ruleF2, ruleN5, ruleP2b, ruleP8, ruleW3, ruleE10, ruleF6, ruleO3, ruleT7, ruleT7h, ruleS5s, ruleE1, ruleE1b, ruleE3, ruleE3s)
 	register("C06", "Decided: precedence layering of the grammar, operator table of the evaluator, literal bases. Not decided: 64-bit overflow semantics.",
-		ruleT7, ruleT7b, ruleT10Expr, ruleG2, ruleE3, ruleE3s, ruleR6, ruleI1t, ruleI1, ruleK6, ruleZ3b, ruleD13z, ruleT7h, ruleE10)
+		ruleT7, ruleT7b, ruleT10Expr, ruleG2, ruleE3, ruleE3s, ruleR6, ruleI1t, ruleI1, ruleK6, ruleZ3b, ruleD13z, ruleT7h, ruleE10, ruleO6)
 	register("C07", "Decided: every handler return emits, delegates or diagnoses at >= warning (level decided from colog's own table plus the CLI's AddHeader calls); Emit failures are never lost; data-directive clauses; code-generation handlers.",
 		ruleT11, ruleE7, ruleP2, ruleP2g, ruleP2b, ruleP2c, ruleU7, ruleT4d, ruleM7, ruleE7d, ruleP7, ruleD13z, ruleE7e, ruleT6)
 	register("C08", "Decided: record layouts and constants, capture-then-write ordering, symbol/aux counts, string table. Not decided: acceptance by an independent COFF reader.",
@@ -25,7 +25,7 @@ func init() {
 	register("C10", "Decided: no post-init writes of package-level state, no map iteration / clock / random / environment / goroutines reachable from an assembly, truncating output, single image write. Third-party packages are trusted.",
 		ruleE1, ruleE1b, ruleE1c, ruleE2, ruleE3, ruleE3s, ruleP6, ruleF2, ruleEmitLoop)
 	register("C11", "Decided: the EQU clause stores the evaluated body under the identifier's own text and emits nothing; handlers get evaluated operands; lookups are re-evaluated at the use site. Not decided: equivalence with textual inlining for bodies containing `$`.",
-		ruleE10, ruleF3, ruleE3, ruleE3s, ruleO3, ruleR6, ruleT10k, ruleK6, ruleE10m, ruleE1, ruleE1b, ruleE1c)
+		ruleE10, ruleF3, ruleE3, ruleE3s, ruleO3, ruleR6, ruleT10k, ruleK6, ruleE10m, ruleE1, ruleE1b, ruleE1c, ruleO6)
 	register("C12", "Decided: layout attributes of the extracted grammar. Not decided: language equivalence under re-layout.",
 		ruleT10Layout, ruleT10a, ruleL19, ruleT10k, ruleT10c)
 	register("C13", "Decided for gosk's own code: explicit crash primitives reachable from the entry points and parser panic recovery; every constant and variable index, slice expression and forced type assertion; integer division; computed and input-sized make lengths; Must helpers; recursion through the EQU table; bracket nesting depth of the grammar. Not decided: nil dereferences, panics inside generated parsers and third-party modules, the complexity clause.",
